@@ -160,7 +160,7 @@ def decodeLink (l : PLink) : Option Link :=
 
 /-- a span under (resource, scope). Fields OTLP does not carry in fields the statement lists are fixed:
 the span's own trace flags/remote bit, the parent's trace id/flags/trace state, the child count. -/
-def decodeSpan (r : Option Resource) (sc : Scope) (p : PSpan) : Option Span :=
+def decodeSpan (r : Resource) (sc : Scope) (p : PSpan) : Option Span :=
   match decodeKVs p.attrs, mapOpt decodeEvent p.events, mapOpt decodeLink p.links, p.status, decodeRemote p.flags with
   | some a, some es, some ls, some st, some rem =>
     match decodeStatusCode st.code with
@@ -171,18 +171,25 @@ def decodeSpan (r : Option Resource) (sc : Scope) (p : PSpan) : Option Span :=
                kind := p.kind, start := Int.ofNat p.start, stop := Int.ofNat p.stop, attrs := a, events := es,
                links := ls, statusCode := code, statusDesc := st.message,
                droppedAttrs := Int.ofNat p.droppedAttrs, droppedEvents := Int.ofNat p.droppedEvents,
-               droppedLinks := Int.ofNat p.droppedLinks, childCount := 0, resource := r, scope := sc }
+               droppedLinks := Int.ofNat p.droppedLinks, childCount := 0, resource := some r, scope := sc }
       else none
     | none => none
   | _, _, _, _, _ => none
 
-def decodeScopeSpans (r : Option Resource) (ss : PScopeSpans) : Option (List Span) :=
+def decodeScopeSpans (r : Resource) (ss : PScopeSpans) : Option (List Span) :=
   match decodeScope ss.scope ss.schemaUrl with
   | some sc => mapOpt (decodeSpan r sc) ss.spans
   | none => none
 
+/-- Resource message + schema URL of the enclosing Resource* message, read as a resource: an absent message is the
+resource without attributes. (After a wire round trip an absent Resource and an empty `Resource{}` with the same
+schema URL describe the same resource; a nil `*resource.Resource` and `resource.Empty()` are therefore one
+resource — see `normRes`.) -/
+def decodeResourceMsg (r : Option PResource) (schema : Bytes) : Option Resource :=
+  (decodeResource r schema).map fun o => o.getD ⟨[], []⟩
+
 def decodeResourceSpans (rs : PResourceSpans) : Option (List Span) :=
-  match decodeResource rs.resource rs.schemaUrl with
+  match decodeResourceMsg rs.resource rs.schemaUrl with
   | some r => (mapOpt (decodeScopeSpans r) rs.scopeSpans).map List.flatten
   | none => none
 
@@ -193,11 +200,14 @@ def decodeSpans (rss : List PResourceSpans) : Option (List Span) :=
 def normEvent (e : Event) : Event :=
   { e with time := Int.ofNat (timeNano e.time), attrs := normKVs e.attrs, dropped := Int.ofNat (clampUint32 e.dropped) }
 
-/-- link: the trace state is *kept* (the statement lists links; F16 is the failure to carry it) -/
+/-- link: trace id, span id, remote bit, trace state (carried since the F16 repair), attributes, dropped count -/
 def normLink (l : Link) : Link :=
   { sc := { l.sc with flags := 0 }, attrs := normKVs l.attrs, dropped := Int.ofNat (clampUint32 l.dropped) }
 
 def normStatusCode (c : Nat) : Nat := if c = 1 then 1 else if c = 2 then 2 else 0
+
+/-- a span's resource as a value: its attributes and schema URL (nil = the empty resource without schema URL) -/
+def normRes (o : Option Resource) : Resource := ⟨normKVs (resKey o), resSchema o⟩
 
 /-- the stated lossy points of a span: negative times → 0, counts clamped to [0, 2³²−1], kinds/status codes
 outside the tables → unspecified/unset, attribute values as `normVal`; not carried at all: own trace flags and
@@ -211,54 +221,25 @@ def normSpan (s : Span) : Span :=
     statusCode := normStatusCode s.statusCode,
     droppedAttrs := Int.ofNat (clampUint32 s.droppedAttrs), droppedEvents := Int.ofNat (clampUint32 s.droppedEvents),
     droppedLinks := Int.ofNat (clampUint32 s.droppedLinks), childCount := 0,
-    resource := s.resource.map normResource, scope := normScope s.scope }
-
-/-- F16: some link's span context carries a non-empty trace state -/
-def F16_span (s : Span) : Bool := s.links.any fun l => l.sc.traceState != []
-def F16_applies (sdl : List (Option Span)) : Bool := (sdl.filterMap id).any F16_span
-
-/-- what is left of a span when F16 is set aside -/
-def eraseLinkTS (s : Span) : Span :=
-  { s with links := s.links.map fun l => { l with sc := { l.sc with traceState := [] } } }
-
-/-- Resources that share a grouping key (attribute set) are the same resource (schema URL, nil-ness).
-`Resource.Equivalent` ignores the schema URL, so without this the first-seen resource of a key wins (F32). -/
-def ResConsistent (ss : List Span) : Prop :=
-  ∀ a ∈ ss, ∀ b ∈ ss, resKey a.resource = resKey b.resource → a.resource = b.resource
-
-def resConsistentB (ss : List Span) : Bool :=
-  ss.all fun a => ss.all fun b => !(resKey a.resource == resKey b.resource) || a.resource == b.resource
-
-/-- F32 (traces): two spans whose resources have the same attribute set (the grouping key,
-`Resource.Equivalent()`) but are not the same resource (schema URL, nil vs empty) -/
-def F32_applies (sdl : List (Option Span)) : Bool := !resConsistentB (sdl.filterMap id)
-
-/-- what is left of a span when F32 is set aside: the resource reduced to its grouping key (attributes), i.e.
-schema URL and nil-ness erased -/
-def eraseRes (s : Span) : Span := { s with resource := some ⟨resKey s.resource, []⟩ }
+    resource := some (normRes s.resource), scope := normScope s.scope }
 
 /-- ORACLE (traces), evaluated on the implementation's observed payload: the decoded spans — each under the
-resource/scope of its group — are exactly the (normalised) input spans, each once. `modF16` sets link trace
-states aside; `modF32` sets schema URL / nil-ness of the resource aside, but then still requires every decoded
-resource to be the resource of some input span (the first-seen one wins, nothing is invented). -/
-def spansRecovered (modF16 modF32 : Bool) (sdl : List (Option Span)) (obs : List PResourceSpans) : Bool :=
-  let f := fun s => (if modF32 then eraseRes s else s)
-  let g := fun s => (if modF16 then eraseLinkTS s else s)
-  let want := (sdl.filterMap id).map normSpan
+resource (attributes + schema URL) and scope of its group — are exactly the (normalised) input spans, each once. -/
+def spansRecovered (sdl : List (Option Span)) (obs : List PResourceSpans) : Bool :=
   match decodeSpans obs with
   | none => false
-  | some ys => (ys.map (f ∘ g)).isPerm (want.map (f ∘ g)) &&
-      ys.all fun y => want.any fun x => x.resource == y.resource
+  | some ys => ys.isPerm ((sdl.filterMap id).map normSpan)
 
-/-- ORACLE (grouping): one Resource* per distinct input resource key and one Scope* per distinct input
-(resource key, scope) pair — so no two groups have equal keys — compared after normalisation. -/
+/-- ORACLE (grouping): one Resource* per distinct input resource (attributes + schema URL) and one Scope* per
+distinct input (resource, scope) pair — so no two groups have equal keys — compared after normalisation. -/
 def spanGroupsOK (sdl : List (Option Span)) (obs : List PResourceSpans) : Bool :=
   let ss := sdl.filterMap id
-  let obsRes := obs.map fun rs => (decodeResource rs.resource rs.schemaUrl).map (fun r => resKey r)
+  let obsRes := obs.map fun rs => decodeResourceMsg rs.resource rs.schemaUrl
   let obsSc := obs.flatMap fun rs => rs.scopeSpans.map fun sc =>
-    ((decodeResource rs.resource rs.schemaUrl).map (fun r => resKey r), decodeScope sc.scope sc.schemaUrl)
-  let wantRes := (ss.map fun s => resKey s.resource).eraseDups.map fun k => some (normKVs k)
-  let wantSc := (ss.map fun s => (resKey s.resource, s.scope)).eraseDups.map fun p => (some (normKVs p.1), some (normScope p.2))
+    (decodeResourceMsg rs.resource rs.schemaUrl, decodeScope sc.scope sc.schemaUrl)
+  let wantRes := (ss.map fun s => (resKey s.resource, resSchema s.resource)).eraseDups.map fun k => some (Resource.mk (normKVs k.1) k.2)
+  let wantSc := (ss.map fun s => ((resKey s.resource, resSchema s.resource), s.scope)).eraseDups.map
+    fun p => (some (Resource.mk (normKVs p.1.1) p.1.2), some (normScope p.2))
   obsRes.isPerm wantRes && obsSc.isPerm wantSc && obs.all (fun rs => rs.scopeSpans.all fun sc => !sc.spans.isEmpty)
 
 /-! ### logs -/
@@ -304,12 +285,6 @@ def normLog (r : LogRecord) : LogRecord :=
     dropped := Int.ofNat (logDropped r.dropped),
     resource := normResource r.resource, scope := normScope r.scope }
 
-def LogResConsistent (rs : List LogRecord) : Prop :=
-  ∀ a ∈ rs, ∀ b ∈ rs, a.resource.attrs = b.resource.attrs → a.resource = b.resource
-
-def logResConsistentB (rs : List LogRecord) : Bool :=
-  rs.all fun a => rs.all fun b => !(a.resource.attrs == b.resource.attrs) || a.resource == b.resource
-
 /-- the stated lossy points of a log record **without** the empty-value rewriting: body and attribute values
 must come back as they are (this is what the statement asks; F33 is the failure for empty values) -/
 def normLogS (r : LogRecord) : LogRecord :=
@@ -321,32 +296,25 @@ def normLogS (r : LogRecord) : LogRecord :=
     dropped := Int.ofNat (logDropped r.dropped),
     resource := normResource r.resource, scope := normScope r.scope }
 
-/-- F32 (logs): two records whose resources have the same attribute set but another schema URL -/
-def F32_appliesLogs (rs : List LogRecord) : Bool := !logResConsistentB rs
-
 /-- F33: some record whose body or some attribute value — nested ones included — is the empty value -/
 def F33_applies (rs : List LogRecord) : Bool := rs.any fun r => !r.body.plain || !LVal.plainKVs r.attrs
 
-def eraseLogResSchema (r : LogRecord) : LogRecord := { r with resource := { r.resource with schemaUrl := [] } }
-
 /-- ORACLE (logs): the decoded records — each under the resource/scope of its group — are exactly the input
-records (`normLogS`), each once. `modF33`: empty values are expected as the string "INVALID" (`normLog`);
-`modF32`: the resource's schema URL is set aside, but every decoded resource must be some input record's. -/
-def logsRecovered (modF32 modF33 : Bool) (rs : List LogRecord) (obs : List PResourceLogs) : Bool :=
-  let f := fun r => (if modF32 then eraseLogResSchema r else r)
+records (`normLogS`), each once. `modF33`: empty values are expected as the string "INVALID" (`normLog`). -/
+def logsRecovered (modF33 : Bool) (rs : List LogRecord) (obs : List PResourceLogs) : Bool :=
   let want := rs.map (if modF33 then normLog else normLogS)
   match decodeLogs obs with
   | none => false
-  | some ys => (ys.map f).isPerm (want.map f) && ys.all fun y => want.any fun x => x.resource == y.resource
+  | some ys => ys.isPerm want
 
-/-- ORACLE (log grouping): one ResourceLogs per distinct resource key, one ScopeLogs per distinct
-(resource key, scope) pair, no empty group -/
+/-- ORACLE (log grouping): one ResourceLogs per distinct resource (attributes + schema URL), one ScopeLogs per
+distinct (resource, scope) pair, no empty group -/
 def logGroupsOK (rs : List LogRecord) (obs : List PResourceLogs) : Bool :=
-  let obsRes := obs.map fun rl => (decodeLogResource rl.resource rl.schemaUrl).map (·.attrs)
+  let obsRes := obs.map fun rl => decodeLogResource rl.resource rl.schemaUrl
   let obsSc := obs.flatMap fun rl => rl.scopeLogs.map fun sl =>
-    ((decodeLogResource rl.resource rl.schemaUrl).map (·.attrs), decodeScope sl.scope sl.schemaUrl)
-  let wantRes := (rs.map fun r => r.resource.attrs).eraseDups.map fun k => some (normKVs k)
-  let wantSc := (rs.map fun r => (r.resource.attrs, r.scope)).eraseDups.map fun p => (some (normKVs p.1), some (normScope p.2))
+    (decodeLogResource rl.resource rl.schemaUrl, decodeScope sl.scope sl.schemaUrl)
+  let wantRes := (rs.map fun r => r.resource).eraseDups.map fun k => some (normResource k)
+  let wantSc := (rs.map fun r => (r.resource, r.scope)).eraseDups.map fun p => (some (normResource p.1), some (normScope p.2))
   obsRes.isPerm wantRes && obsSc.isPerm wantSc && obs.all (fun rl => rl.scopeLogs.all fun sl => !sl.records.isEmpty)
 
 /-! ### metrics -/
